@@ -22,6 +22,11 @@ type c04Case struct {
 	NOut  int   `json:"nout"`
 	Pos   int   `json:"pos"`
 	Insc  bool  `json:"inscription"`
+	// Trailer: bytes after an OP_RETURN appended to the inscription script (0 = no OP_RETURN)
+	Trailer int `json:"op_return_trailer_len,omitempty"`
+	// Resign: sign, apply the mutation to the SAME transaction object in place, sign again and
+	// verify: the second signature must be valid for the edited transaction
+	Resign bool `json:"resign_after_edit,omitempty"`
 	HT    uint8 `json:"hash_type"`
 	Mut   int   `json:"mutation"`
 	Param int   `json:"param"`
@@ -222,6 +227,13 @@ func c04Check(c c04Case) (fs []rep.Finding) {
 	lock := refP2PKH(refHash160(pub.SerialiseCompressed()))
 	if c.Insc {
 		lock = append(append([]byte(nil), lock...), c14Templates()["inscription"][25:]...)
+		if c.Trailer > 0 {
+			// OP_RETURN followed by one push of Trailer bytes (as Inscribe's enrichment produces)
+			lock = append(append(lock, 0x6a), minimalPush(fill(c.Trailer, 0x42))...)
+		}
+	}
+	if c.Resign {
+		return c04Resign(c, priv, lock)
 	}
 	ref0 := c04Ref(c, lock)
 	tx0 := toLib(ref0)
@@ -271,9 +283,91 @@ func c04Check(c c04Case) (fs []rep.Finding) {
 	return
 }
 
+// c04Resign: sign input Pos, edit the library transaction object in place, sign again
+// through the same path, then verify: every library-made signature must be accepted for
+// the transaction as it is now.
+func c04Resign(c c04Case, priv *bec.PrivateKey, lock []byte) (fs []rep.Finding) {
+	ref := c04Ref(c, lock)
+	tx := toLib(ref)
+	for _, in := range tx.Inputs {
+		in.UnlockingScript = nil
+	}
+	u := &unlocker.Simple{PrivateKey: priv}
+	sign := func() error {
+		return tx.FillInput(context.Background(), u, bt.UnlockerParams{InputIdx: uint32(c.Pos), SigHashFlags: sighash.Flag(c.HT)})
+	}
+	if err := sign(); err != nil {
+		return append(fs, rep.F("sign|error", err.Error()))
+	}
+	// in-place edits of the same object
+	switch c.Mut {
+	case mVersion:
+		tx.Version++
+		ref.Version++
+	case mLockTime:
+		tx.LockTime++
+		ref.LockTime++
+	case mOutValue:
+		if c.Param >= len(tx.Outputs) {
+			return nil
+		}
+		tx.Outputs[c.Param].Satoshis += 3
+		ref.Outs[c.Param].Sats += 3
+	case mOutScript:
+		if c.Param >= len(tx.Outputs) {
+			return nil
+		}
+		(*tx.Outputs[c.Param].LockingScript)[5] ^= 1
+		ref.Outs[c.Param].Script[5] ^= 1
+	case mOutInsert:
+		tx.AddOutput(&bt.Output{Satoshis: 9, LockingScript: libScript([]byte{0x6a})})
+		ref.Outs = append(ref.Outs, txref.Out{Sats: 9, Script: []byte{0x6a}})
+	case mOutRemove:
+		if len(tx.Outputs) == 0 {
+			return nil
+		}
+		tx.Outputs = tx.Outputs[:len(tx.Outputs)-1]
+		ref.Outs = ref.Outs[:len(ref.Outs)-1]
+	case mInSeq:
+		if c.Param >= len(tx.Inputs) {
+			return nil
+		}
+		tx.Inputs[c.Param].SequenceNumber ^= 2
+		ref.Ins[c.Param].Seq ^= 2
+	case mInVout:
+		if c.Param >= len(tx.Inputs) {
+			return nil
+		}
+		tx.Inputs[c.Param].PreviousTxOutIndex += 2
+		ref.Ins[c.Param].Vout += 2
+	case mSpentValue:
+		tx.Inputs[c.Pos].PreviousTxSatoshis += 4
+		ref.Ins[c.Pos].PrevSats += 4
+	case mInInsert:
+		_ = tx.FromUTXOs(&bt.UTXO{TxID: txid32(0xe7), Vout: 1, Satoshis: 77, LockingScript: libScript(refP2PKH(fill(20, 9)))})
+		ref.Ins = append(ref.Ins, txref.In{TxID: txid32(0xe7), Vout: 1, Seq: 0xffffffff, PrevSats: 77, PrevScript: refP2PKH(fill(20, 9))})
+	default:
+		return nil
+	}
+	if err := sign(); err != nil {
+		return append(fs, rep.F("sign|error", err.Error()))
+	}
+	ref.Ins[c.Pos].Script = append([]byte(nil), *tx.Inputs[c.Pos].UnlockingScript...)
+	forkid := c.HT&0x40 != 0
+	if err := c04Verify(ref, c.Pos, forkid, nil); err != nil {
+		alg := "legacy"
+		if forkid {
+			alg = "forkid"
+		}
+		fs = append(fs, rep.F(fmt.Sprintf("resigned-after-edit-rejected|%s|base=%d,acp=%v|%s", alg, c.HT&3, c.HT&0x80 != 0, mutNames[c.Mut]),
+			"an input signed again through the library after an in-place edit of the transaction is rejected: "+err.Error()))
+	}
+	return
+}
+
 func init() {
 	p := register(&Prop{ID: "C04", Level: "exploration",
-		Rule: "exhaustive product: 4 (quick) / 8 (thorough) private keys (incl. 1 and n-1) x shapes nIn 1..3 x nOut 0..3 x every signed position x spent script {P2PKH, P2PKH inscription} x the 6 FORKID hash types verified with the FORKID flag and the 6 legacy types verified without it x EVERY single-field mutation class at every position (version, locktime, each input's txid/vout/sequence, another input's unlocking script / spent value, each output's value/script, output insertion at every gap / removal, input insertion at every gap / removal, adjacent swaps, spent value, spent script; the spent-output mutations also with the transaction object still carrying the signer-side record of the spent output). The input is signed through Tx.FillInput + unlocker.Simple and verified with interpreter.Execute(WithTx, WithAfterGenesis[, WithForkID]). Oracle: unmutated accepted; mutated accepted iff the reference digest (certified on the node vectors) of the mutated context equals the original digest. distinct_nontrivial = distinct (shape, position, hash type, mutation) verifications",
+		Rule: "exhaustive product: 4 (quick) / 8 (thorough) private keys (incl. 1 and n-1) x shapes nIn 1..3 x nOut 0..3 x every signed position x spent script {P2PKH, P2PKH inscription, inscription with an OP_RETURN trailer pushing 1,2,3,4,75,76 bytes} x the 6 FORKID hash types verified with the FORKID flag and the 6 legacy types verified without it x EVERY single-field mutation class at every position (version, locktime, each input's txid/vout/sequence, another input's unlocking script / spent value, each output's value/script, output insertion at every gap / removal, input insertion at every gap / removal, adjacent swaps, spent value, spent script; the spent-output mutations also with the transaction object still carrying the signer-side record of the spent output). The input is signed through Tx.FillInput + unlocker.Simple and verified with interpreter.Execute(WithTx, WithAfterGenesis[, WithForkID]). plus sign -> in-place edit of the same Tx object -> sign again -> verify sequences (10 edit kinds). Oracle: unmutated accepted; re-signed accepted; mutated accepted iff the reference digest (certified on the node vectors) of the mutated context equals the original digest. distinct_nontrivial = distinct (shape, position, hash type, mutation) verifications",
 	})
 	sp := NewSpace(p, "sign-mutate-verify", c04Check)
 	p.Run = func(r *rep.Run, thorough bool) {
@@ -288,7 +382,7 @@ func init() {
 		(&Space[c04Case]{P: p, Name: sp.Name, Check: func(c c04Case) []rep.Finding {
 			fs := c04Check(c)
 			if len(fs) == 0 {
-				r.Distinct(fmt.Sprint(c.NIn, c.NOut, c.Pos, c.Insc, c.HT, c.Mut, c.Param, c.Stale))
+				r.Distinct(fmt.Sprint(c.NIn, c.NOut, c.Pos, c.Insc, c.HT, c.Mut, c.Param, c.Stale, c.Trailer, c.Resign))
 			}
 			return fs
 		}}).Each(r, func(yield func(c04Case)) {
@@ -309,6 +403,14 @@ func init() {
 											yield(c04Case{Key: k, NIn: nin, NOut: nout, Pos: pos, Insc: insc, HT: ht, Mut: m, Param: prm})
 											if m == mNone || m == mSpentValue || m == mSpentScript || m == mOutValue {
 												yield(c04Case{Key: k, NIn: nin, NOut: nout, Pos: pos, Insc: insc, HT: ht, Mut: m, Param: prm, Stale: true})
+											}
+											if k < 2 && prm <= 2 {
+												yield(c04Case{Key: k, NIn: nin, NOut: nout, Pos: pos, Insc: insc, HT: ht, Mut: m, Param: prm, Resign: true})
+											}
+											if insc && m == mNone {
+												for _, tr := range []int{1, 2, 3, 4, 75, 76} {
+													yield(c04Case{Key: k, NIn: nin, NOut: nout, Pos: pos, Insc: true, Trailer: tr, HT: ht, Mut: m})
+												}
 											}
 										}
 									}
